@@ -234,6 +234,29 @@ class Sandbox:
                     continue
         self.install_soffice()
         self.seq = 0
+        self.plant_decoys()
+
+    def plant_decoys(self):
+        """Unrelated user content that merely LOOKS like the library's scratch files, some of it old:
+        nothing an export does may touch it (stale-file collectors, pattern-based cleanups)."""
+        old = time.time() - 3 * 86400
+        for base in (self.tmp, self.out, self.cwd):
+            for name, is_dir in (("rtflite-ab12cd34", True), ("rtflite_old", True), ("tmpk3j2h1x9", True),
+                                 ("report.rtf", False), ("lu4711.tmp", False), (".~lock.report.docx#", False),
+                                 ("report.html_files.bak", True)):
+                p = os.path.join(base, "decoy_" + name if base != self.tmp else name)
+                try:
+                    if is_dir:
+                        os.makedirs(p, exist_ok=True)
+                        with open(os.path.join(p, "keep.txt"), "w") as fh:
+                            fh.write("user data")
+                        os.utime(os.path.join(p, "keep.txt"), (old, old))
+                    else:
+                        with open(p, "w") as fh:
+                            fh.write("user data " + name)
+                    os.utime(p, (old, old))
+                except OSError:
+                    pass
 
     def install_soffice(self):
         p = os.path.join(self.bin, "soffice")
@@ -848,7 +871,13 @@ def judge_event(ev) -> list:
 
     tmp_new = [k for k in list(added) + list(changed) if k == "tmp" or k.startswith("tmp/")]
     tmp_new = [k for k in tmp_new if k != "tmp"]
-    if ev["tmp_after"] != ev["tmp_before"] or tmp_new:
+    gone = sorted(set(ev["tmp_before"]) - set(ev["tmp_after"]))
+    tmp_removed = [k for k in removed if k.startswith("tmp/")]
+    tmp_changed = [k for k in changed if k.startswith("tmp/")]
+    if gone or tmp_removed or tmp_changed:
+        # something that was in the temp directory BEFORE the export (not ours) was removed or modified
+        v("foreign_temp_content_touched", detail={"gone": gone[:5], "removed": tmp_removed[:5], "changed": tmp_changed[:5]})
+    if set(ev["tmp_after"]) - set(ev["tmp_before"]) or [k for k in added if k.startswith("tmp/")]:
         v("temp_debris", detail={"before": ev["tmp_before"][:5], "after": ev["tmp_after"][:8]})
 
     if oc["k"] == "raised":
